@@ -45,6 +45,10 @@ CHECKS["C03"] = dict(level="fault_enumeration",
    text="Crash-point enumeration: for a prefix history (fixed in the quick tier, Hypothesis-generated in the thorough tier, incl. failed-commit and crash leftovers) and each operation (create_table, append, multi-append, delete_files, expire, delete_snapshot, garbage_collect) the table directory / S3 object map is copied before and after EVERY step of one complete run - each copy is exactly what a process death there leaves - plus torn prefixes of the natively written parquet temp file. Every crash state is reopened and must equal the pre- or post-state (independent reader), scan identically through the library, accept an append, and after ageing past grace and the 24 h marker window GC must delete nothing reachable, leave the content unchanged and remove the leftovers.",
    note="Exhaustive over the step sequence of each (prefix, operation), not over prefixes. Process death with a surviving OS; kernel flocks die with the process, S3 lock objects are aged past the lease. Power loss is C16.",
    technique="exhaustive crash-state enumeration over recorded step sequences (directory copies), oracle = independent reader + library reopen + follow-up append + GC", design="3/C03")
+CHECKS["C14"] = dict(level="fault_enumeration",
+   text="For Hypothesis-generated tables (local and fake S3) every file reachable from the current snapshot is damaged in every way of a damage grammar (delete, truncations at structural and generated offsets, random bytes, sibling's bytes, one flipped byte per parquet region, persistent read error) and every read API x verify on/off x filter (none / pruning / non-pruning) is run: if the damaged file is needed by the read and the damage makes it missing/unparseable (judged by an independent parser) or (data files, verification on) changes any byte, the API must raise; otherwise a returned answer must equal the undamaged answer. Exhaustive over files x damages x APIs per generated table.",
+   note="Metadata-plane damages that an independent parser still accepts are excluded (the statement does not cover parseable files). One known finding: deleting the metadata file the pointer names makes reads fall back to an older version (recovery-by-scan by design; conflicts with C10).",
+   technique="exhaustive damage enumeration over generated tables (fault injection on files and on read calls), oracle = undamaged answer + independent parser", design="3/C14")
 NOT_YET = {}
 
 def main():
